@@ -35,11 +35,22 @@ CHECKS = {
                 text=TRACE_TXT + "every I/O step of every commit/compaction/close is failed once; the monitor keeps the set "
                      "of admissible graphs (pre / post) and narrows it at reopen.",
                 note="one fault per run"),
+    "C15": dict(ref="5 C15", tech="TLA+ reference evaluator (CypherSem.tla) on recorded executions of paired indexed / unindexed databases (trace validation)",
+                text="Each seeded history (creates, updates by id and by value, property removal, label changes, deletes, compaction, reopen, "
+                     "index creation at a random point) runs on two databases, with and without the index; after every step the equality "
+                     "lookups for every (label, value) are executed and TLC judges each against the reference evaluated on that database's "
+                     "dumped graph: rows(with index) = rows(without) = reference.",
+                note="values 1, 2, 1.0, 'a', true; multi-label nodes; WHERE and inline-property forms"),
     "C17": dict(ref="5 C17", tech="TLA+ trace validation (StorageTrace) of crash images with hostile log tails + WalTail model",
                 text=TRACE_TXT + "every process-death image (the log exactly as written up to each I/O step, which includes every "
                      "truncation point inside a record) is extended by six hostile tails, opened, extended by a commit and reopened.",
                 note="tails: 64 zero bytes, 37 pseudo-random bytes, length 0x7ffffff0, header announcing more bytes than follow, "
                      "complete record with wrong checksum, bit flip in the last byte"),
+    "C33": dict(ref="5 C33", tech="TLA+ trace validation (CypherTrace.TLim): limited runs against the unlimited run of the same query",
+                text="Queries with large intermediates run without limits and under 5 limit settings each; TLC requires every limited run to "
+                     "return the same bag of rows or a resource-limit error, with the reported observed count of per-row limits <= limit+1 "
+                     "and timeout overshoot within slack.",
+                note="differential oracle (weakest binding of the set); collection-size overshoot is not bounded by the rule"),
     "C26": dict(ref="5 C26", tech="TLC model checking of BTree.tla + TLA+ trace validation (BTreeTrace) of the real B-tree",
                 text="BTree.tla transcribes insert/split/delete/cursor with page capacity 2; TLC checks scan/lookup/delete against the "
                      "sorted-multimap ghost exhaustively for unique keys, and reproduces the equal-keys defect whose counterexample is "
@@ -89,7 +100,7 @@ CHECKS = {
 }
 
 # properties whose check has been run green on the unchanged tree
-ENABLED = ["C01", "C02", "C04", "C05", "C06", "C07", "C08", "C11", "C17", "C19", "C20", "C21", "C22", "C23", "C26", "C27", "C28"]
+ENABLED = ["C01", "C02", "C04", "C05", "C06", "C07", "C08", "C11", "C15", "C17", "C19", "C20", "C21", "C22", "C23", "C26", "C27", "C28", "C33"]
 
 NOT_APPLICABLE = {
     "C16": "quantifies over arbitrary byte strings and resource exhaustion; no state machine to specify, a fuzzer's job (DESIGN.md 6)",
